@@ -37,6 +37,10 @@ RULE = ("EXHAUSTIVE part: every string over {a, b, U+FF25 (width 2), U+0300 (wid
         "negative and reversed bounds, int indices, and a malformed stream containing control characters (wcwidth -1: "
         "ValueError/AssertionError paths). The widths of all characters involved are read from cwcwidth at run time and "
         "handed to Coq with the case. Observation: per-character cells of the result, numbers, exception class. "
+        "The slices are judged by columns (col_slice) AND character by character (slice_ref_runs / slice_ref / inner_marks: "
+        "which characters, zero-width ones included, with which formatting); the exhaustive part contains every placement of "
+        "a run made of combining characters only (strictly inside the range, at its start column, at its end column) and of "
+        "a run beginning with a combining character (whole inside / cut by either edge) - counted by the q_mark_* labels. "
         "non-trivial = at least one wide or zero-width character and at least one slice query; distinct = distinct "
         "(runs, queries)")
 GENERATORS = ("gen/gen_pure.py",)
@@ -45,7 +49,9 @@ TRUSTED = [
     "translator gen/gen_pure.py (dumps the Python AST of interval_overlap node by node into coq/Gen/Pure.v) and the reference "
     "semantics of that Python subset coq/Spec/PyMini.v, itself run against CPython on enumerated arguments in every check",
     "Coq 8.16.1 kernel incl. vm_compute (no native_compute); Print Assumptions: closed under the global context",
-    "reference notions coq/Spec/Columns.v (column expansion of cells, cut of orphaned halves, firstn/skipn)",
+    "reference notions coq/Spec/Columns.v (column expansion of cells, cut of orphaned halves, firstn/skipn; per character: "
+    "positions, keep_char, slice_ref, and the run-aware slice_ref_runs which states the code's rule for the zero-width "
+    "characters at the very beginning of a run)",
     "cwcwidth (C library): its wcwidth values are data of each case; wcswidth(s, n) modelled as the sum over the first n "
     "characters or -1 (checked on every case through f.width / width_at_offset)",
     "harness canonicaliser harness/canon.py (FmtStr runs -> Coq literal) and the parser of coqc's answer",
@@ -56,6 +62,9 @@ ASSUMPTIONS = [
     "ValueError before anything else; that path is in the model and in the correspondence, not in the theorems)",
     "wcwidth(' ') = 1 (the replacement character)",
     "0 <= a <= b for the slice theorem (the property's quantifier); other index forms are only covered by the correspondence",
+    "the layout-independent character-level statements need a hypothesis on the run layout (no run begins with a zero-width "
+    "character / only runs of zero-width characters do); for every layout the exact run-aware statement is proved; the "
+    "unconditional forms are refuted by examples in Props/C10.v (findings: leading marks of a run)",
 ]
 
 
@@ -209,6 +218,30 @@ def stats(inp, out):
         yield "has_zero_width"
     if any(wcwidth(c) < 0 for c in s):
         yield "has_negative_width_char"
+    # runs with the column at which they start, their width, and whether they begin with a zero-width character
+    placed, col = [], 0
+    for t, _ in runs:
+        w = sum(max(wcwidth(c), 0) for c in t)
+        if t and wcwidth(t[0]) == 0:
+            placed.append((col, w))
+        col += w
+    seen = set()
+    for q in inp["queries"]:
+        if q[0] != "slice" or q[1] is None or q[2] is None or not (0 <= q[1] <= q[2]):
+            continue
+        a, b = q[1], q[2]
+        for K, w in placed:
+            if w == 0:
+                seen.add("q_mark_only_run_strictly_inside" if a < K < b else
+                         "q_mark_only_run_at_start_column" if K == a else
+                         "q_mark_only_run_at_end_column" if K == b else "q_mark_only_run_outside")
+            elif a < K <= b and K + w > b:
+                seen.add("q_mark_leading_run_cut_by_right_edge")      # the code drops it: finding
+            elif a == K and K + w <= b:
+                seen.add("q_mark_leading_whole_run_at_start_column")  # the code keeps it: finding
+            elif a < K and K + w <= b:
+                seen.add("q_mark_leading_whole_run_inside")
+    yield from sorted(seen)
     nslices = 0
     for q, o in zip(inp["queries"], out):
         if q[0] in ("slice", "int"):
@@ -247,7 +280,15 @@ LEVEL_TEXT = ("Machine-checked theorems (Coq) for ALL FmtStrs whose characters h
               "width f = number of column cells; width_at_offset f n = number of column cells of the first n characters; "
               "for all 0 <= a <= b the column cells of width_aware_slice(a:b) are exactly columns a..b-1 of f with an orphaned "
               "half of a double-width character shown as a space in that character's formatting, and its zero-width "
-              "characters are a sub-sequence of f's. The model follows the code (run walk with counter, whole-run reuse, "
+              "characters are a sub-sequence of f's. Character by character (zero-width characters and formatting included): "
+              "for every run layout the cells of the slice are exactly the run-aware reference slice_ref_runs (each character "
+              "judged by its start column and width: wholly inside kept, cut wide character -> space in its state, zero-width "
+              "kept iff a < column <= b; only the zero-width characters at the very beginning of a run follow a rule of their "
+              "run); where no run begins with a zero-width character they are the layout-independent slice_ref of the cells; "
+              "where only runs of zero-width characters begin with one, every zero-width character strictly inside (a, b) is "
+              "kept with its formatting, in order. Unconditional forms of the last two are refuted (Props/C10.v, *_refuted: the "
+              "leading marks of a run that is cut by the right edge are dropped; of a run lying wholly inside are kept even at "
+              "the start column). The model follows the code (run walk with counter, whole-run reuse, "
               "early break, per-character divides, zero-width-at-start rule, interval_overlap) and its agreement with the "
               "implementation is checked exhaustively on small inputs in every run")
 LEVEL_NOTE = ("Trusted: Coq kernel+vm_compute, Spec/Columns.v, the canonicaliser; cwcwidth's per-character widths are inputs "
